@@ -730,3 +730,26 @@ def zero_fine(m, seed=0):
                 a[..., f] = -0.0 if rng.random() < 0.5 else 0.0
                 n += 1
     return n
+
+
+def deepen(m, nlevels, seed=0):
+    """Extend a single-level model to `nlevels` levels, each finer level being one small box that refines
+    the low corner block of the level below (a deep, narrow hierarchy: 11 levels give Level_10, whose
+    name sorts between Level_1 and Level_2)"""
+    rng = random.Random(seed)
+    nprng = np.random.default_rng(seed)
+    assert m.nlevels == 1
+    nd = m.ndims
+    for lv in range(1, nlevels):
+        m.dx.append([v / 2 for v in m.dx[-1]])
+        m.grid_sizes.append([2 * g for g in m.grid_sizes[-1]])
+        b = Box([0] * nd, [3] * nd) if lv % 2 else Box([0] * nd, [1] * nd)
+        prev = m.boxes[-1][0]
+        b = Box([0] * nd, [min(2 * (prev.hi[d] + 1) - 1, b.hi[d]) for d in range(nd)])
+        m.boxes.append([b])
+        m.nlevels = lv + 1
+        m.data.append([np.asfortranarray(_payload(m, lv, 0, b, m.payload if m.payload in ("random", "special") else "random", nprng),
+                                         dtype=np.float64)])
+        m.layout.append(_layout(rng, 1, 1, False))
+    m.steps = [m.steps[0]] * nlevels
+    return m
